@@ -3,12 +3,12 @@
    content untouched" is by construction of the wrapper below: the model functions return the appended
    indices, the caller's vector is prior ++ appended (the Rust code only ever pushes / resizes past the
    old length; the harness calls the indices variants with a non-empty prior vector and checks it).
-   PARTIAL: the theorems cover the five algorithms that score through calculate_score and the
-   greedy fallback, i.e. everything except the DP's reconstruct_optimal_path, whose witness property is
-   validated by the correspondence + embedding oracle (and exhaustively on small strings in the
-   thorough tier) but not yet proved. *)
+   The DP's reconstruct_optimal_path is covered by C02_dp_witness (Proofs/DPCore.v: every score cell is
+   UNMATCHED or carries a valid partial embedding that reconstruct returns), proved for
+   prefer_prefix = false; PARTIAL only in that the prefer_prefix = true DP runs are validated by the
+   correspondence + embedding oracle, not proved. *)
 From Coq Require Import Arith NArith List Bool.
-From NV Require Import Model.Matcher Spec.Matching Spec.Statements Proofs.WitnessFacts.
+From NV Require Import Model.Matcher Spec.Matching Spec.Statements Proofs.WitnessFacts Proofs.DPScoreFacts.
 Import ListNotations.
 Local Open Scope N_scope.
 
@@ -29,6 +29,12 @@ Proof. intros prior o H. destruct o; try reflexivity. exfalso. exact (H _ _ eq_r
 Theorem C02_prior_prefix : forall prior s idx, firstn (length prior) (indices_after prior (Match s idx)) = prior.
 Proof. intros. cbn [indices_after]. rewrite firstn_app, Nat.sub_diag, firstn_all. cbn. apply app_nil_r. Qed.
 
+(* the DP (reconstruct_optimal_path) reports a valid embedding - proved with prefix preference off;
+   with prefer_prefix on the DP invariant carries an extra per-column bonus and the clause is validated
+   by the correspondence + embedding oracle only *)
+Theorem C02_dp_witness : DPScoreFacts.DP_witness_weak_stmt.
+Proof. exact DPScoreFacts.DP_witness_weak. Qed.
+
 Example C02_nonvacuous :
   let cfg := config_of preset_default true true false in
   let hs := {| rp := Unicode; cs := [102; 246; 246; 47; 66; 228; 114] |} in
@@ -39,5 +45,6 @@ Proof. vm_compute. split; reflexivity. Qed.
 
 Print Assumptions C02_linear_witness.
 Print Assumptions C02_shape.
+Print Assumptions C02_dp_witness.
 Print Assumptions C02_prior_untouched.
 Print Assumptions C02_prior_prefix.
